@@ -191,6 +191,7 @@ type Checker struct {
 	compiler                compiler.Compiler
 	output                  io.Writer
 	threadPool              *vm.ThreadPool
+	failureCount            int // number of failures reported by this checker (the list in Errors is shared with other checkers)
 }
 
 // Instantiate a new Checker instance.
@@ -6412,6 +6413,7 @@ func (c *Checker) addFailureWithLocation(message string, loc *position.Location)
 	if c.isReadonly() {
 		return
 	}
+	c.failureCount++
 	c.Errors.AddFailure(
 		message,
 		loc,
@@ -6432,6 +6434,7 @@ func (c *Checker) addFailure(message string, location *position.Location) {
 	if c.isReadonly() || location == nil {
 		return
 	}
+	c.failureCount++
 	c.Errors.AddFailure(
 		message,
 		location,
